@@ -13,6 +13,7 @@
 (*        1 RayThroughVertex, 2 RayAlongHorizontalEdge, 4 RayTangentAtVertex, 8 RayTangentCurve,     *)
 (*        16 VertexLevelBehind (a vertex level with s but not on the ray), 32 RayThroughOpenEnd,     *)
 (*        64 RayThroughZeroTangentEnd (end of a cubic whose control point coincides with it),        *)
+(*        1024 RayThroughCubicEnd (a vertex on the ray is an end point of a cubic Bezier),            *)
 (*        128 (boundary points only) the point itself is such a zero-tangent end,                    *)
 (*        256 (boundary points only) the point lies on a cubic (end point or dyadic point),          *)
 (*        512 (boundary points only) the point lies on a quadratic Bezier (end points included)      *)
@@ -112,6 +113,7 @@ ZeroTanEnds(c) == UNION {LET a == SegStart(c, i) g == c.segs[i] IN
                            IF g.k # "C" THEN {} ELSE (IF g.c1 = a THEN {a} ELSE {}) \cup (IF g.c2 = g.p THEN {g.p} ELSE {}) : i \in 1..Len(c.segs)}
 PData(p) == [vs |-> PathVerts(p), ls |-> PathLines(p), dr |-> [j \in 1..Len(p) |-> NonZero(Drawn(p[j]))],
              zt |-> UNION {ZeroTanEnds(p[j]) : j \in 1..Len(p)},
+             ce |-> UNION {UNION {{SegStart(p[j], i), p[j].segs[i].p} : i \in {k \in 1..Len(p[j].segs) : p[j].segs[k].k = "C"}} : j \in 1..Len(p)},
              quads |-> UNION {{<<SegStart(p[j], i), p[j].segs[i].c1, p[j].segs[i].p>> : i \in {k \in 1..Len(p[j].segs) : p[j].segs[k].k = "Q"}} : j \in 1..Len(p)},
              cubs |-> UNION {{<<SegStart(p[j], i), p[j].segs[i].c1, p[j].segs[i].c2, p[j].segs[i].p>> : i \in {k \in 1..Len(p[j].segs) : p[j].segs[k].k = "C"}} : j \in 1..Len(p)},
              circ |-> UNION {{<<p[j].segs[i].c1, p[j].segs[i].c2[1]>> : i \in {k \in 1..Len(p[j].segs) : p[j].segs[k].k = "A" /\ p[j].segs[k].c2[1] = p[j].segs[k].c2[2]}} : j \in 1..Len(p)}]
@@ -125,6 +127,7 @@ FeatDir(pd, s, d) ==
     LET f1 == \E v \in pd.vs : AheadD(s, d, v)
         f2 == \E e \in pd.ls : Cross(s, PAdd(s, d), e[1]) = 0 /\ Cross(s, PAdd(s, d), e[2]) = 0 /\ (AheadD(s, d, e[1]) \/ AheadD(s, d, e[2]))
         f64 == \E v \in pd.zt : AheadD(s, d, v)
+        f1024 == \E v \in pd.ce : AheadD(s, d, v)
         \* the line of the ray touches the circle of a circular arc (distance centre-line = radius)
         nn(v) == d[1] * v[2] - d[2] * v[1]            \* coordinate along the normal of the ray
         f8 == \/ \E cr \in pd.circ : LET x == Cross(s, PAdd(s, d), cr[1]) IN x * x = (d[1] * d[1] + d[2] * d[2]) * cr[2] * cr[2]
@@ -134,7 +137,7 @@ FeatDir(pd, s, d) ==
                                       /\ SetMin(ns) <= nn(s) /\ nn(s) <= SetMax(ns)
                                       /\ ~((nn(cb[1]) <= nn(cb[2]) /\ nn(cb[2]) <= nn(cb[3]) /\ nn(cb[3]) <= nn(cb[4]) /\ nn(cb[1]) < nn(cb[4]))
                                            \/ (nn(cb[1]) >= nn(cb[2]) /\ nn(cb[2]) >= nn(cb[3]) /\ nn(cb[3]) >= nn(cb[4]) /\ nn(cb[1]) > nn(cb[4])))
-    IN (IF f1 THEN 1 ELSE 0) + (IF f2 THEN 2 ELSE 0) + (IF f8 THEN 8 ELSE 0) + (IF f64 THEN 64 ELSE 0)
+    IN (IF f1 THEN 1 ELSE 0) + (IF f2 THEN 2 ELSE 0) + (IF f8 THEN 8 ELSE 0) + (IF f64 THEN 64 ELSE 0) + (IF f1024 THEN 1024 ELSE 0)
 FeatD(p, pd, s) ==
     LET f1 == \E v \in pd.vs : Ahead(s, v)
         f2 == \E e \in pd.ls : e[1][2] = s[2] /\ e[2][2] = s[2] /\ MaxI(e[1][1], e[2][1]) > s[1]
@@ -143,8 +146,9 @@ FeatD(p, pd, s) ==
         f16 == \E v \in pd.vs : v[2] = s[2] /\ v[1] < s[1]
         f32 == f1 /\ \E j \in 1..Len(p) : OpenEndD(pd.dr[j], s)
         f64 == \E v \in pd.zt : Ahead(s, v)
+        f1024 == \E v \in pd.ce : Ahead(s, v)
     IN (IF f1 THEN 1 ELSE 0) + (IF f2 THEN 2 ELSE 0) + (IF f4 THEN 4 ELSE 0) + (IF f8 THEN 8 ELSE 0)
-       + (IF f16 THEN 16 ELSE 0) + (IF f32 THEN 32 ELSE 0) + (IF f64 THEN 64 ELSE 0)
+       + (IF f16 THEN 16 ELSE 0) + (IF f32 THEN 32 ELSE 0) + (IF f64 THEN 64 ELSE 0) + (IF f1024 THEN 1024 ELSE 0)
 Feat(p, s) == FeatD(p, PData(p), s)
 
 \* ---- crossings of a ray in general position --------------------------------------------------------------------
